@@ -226,6 +226,14 @@ def h_datetime_pure(kind: int, nparams: int) -> bool:
     ev = Event()
     ev.add("dtstart", dt, parameters=dict(extra))
     before = ev.to_ical()
+    # (1) a component holding a FRESH vDatetime: the very first serialisation already equals the later ones
+    fresh = Event()
+    fresh["dtstart"] = vDatetime(dt, params=dict(extra))
+    f1 = fresh.to_ical()
+    f2 = fresh.to_ical()
+    if f1 != f2 or f1 != before or fresh.to_ical(sorted=False) != fresh.to_ical(sorted=False):
+        return False
+    # (2) the value used directly
     v = vDatetime(dt, params=dict(extra))
     first = v.to_ical()
     params_after_first = list(v.params.items())
